@@ -12,8 +12,9 @@ from .ops import SymOps, Namespace, BindingError
 
 
 class Loop:
-    def __init__(self, invariant, variant=None):
+    def __init__(self, invariant, variant=None, body_ensures=None):
         self.invariant, self.variant = invariant, variant
+        self.body_ensures = body_ensures     # lambda S, a: clauses that hold at the end of EVERY iteration (continue included)
 
 
 class Contract:
@@ -36,7 +37,7 @@ class Contract:
                  exc_ensures=None, receiver_from_call=False, lemma_facts=None, harness=None, returns=None, constructor=False,
                  variant=None, new_obj=None, init_obj=None, yields=None,
                  yield_may_throw=None, generator=False, expected_dead=(),
-                 free_vars=None, store_hooks=None, loop_ghost=None):
+                 free_vars=None, store_hooks=None, loop_ghost=None, attrs=None):
         self.file, self.qualname, self.params = file, qualname, params
         self.requires, self.ensures, self.raises = requires, ensures, raises or {}
         self.loops = loops or {}
@@ -67,6 +68,8 @@ class Contract:
         self.expected_dead = tuple(expected_dead)
         self.free_vars = free_vars or {}      # closure variables of a nested function: name -> type spec
         self.store_hooks = store_hooks or {}
+        self.opaque_sub = False               # ``a - b`` on two opaque values is set difference, not arithmetic
+        self.attrs = attrs or {}              # dotted attribute expression -> handler(eng, st, fr, k, node) (properties of opaque objects)
         self.loop_ghost = loop_ghost or {}    # loop ordinal -> ghost variables its body may update (default: all)  # name -> handler(eng, st, key, value, node) for ``name[key] = value``
         if returns is not None and make_result is None:
             def _mk(eng, st, bound, _spec=returns):
